@@ -64,15 +64,77 @@ pub struct Session {
     pub mods: BTreeMap<usize, ModObs>,
     pub control: String,
     pub unattributed: Vec<String>,
+    /// whole stdout (hygiene sessions only)
+    pub raw: String,
+}
+
+/// One E3 world. Everything besides the item order is a function of the single number `entropy`
+/// (0 = the canonical world: real clock, real pid, no extra environment), so a replay file only
+/// has to name that number.
+pub struct W3 {
+    pub entropy: u64,
+    pub clock_off_s: i64,
+    pub pid: Option<u64>,
+    pub env: Vec<(String, String)>,
+}
+
+impl W3 {
+    pub fn from_entropy(entropy: u64) -> W3 {
+        if entropy == 0 {
+            return W3 { entropy, clock_off_s: 0, pid: None, env: vec![] };
+        }
+        let mut r = Rng::new(mix64(entropy ^ 0x3E3E));
+        let clock_off_s = match r.below(4) {
+            0 => 0,
+            1 => r.range(1, 86_400) as i64,
+            2 => r.range(86_400, 86_400 * 3650) as i64,
+            _ => -(r.range(86_400, 86_400 * 3650) as i64),
+        };
+        let pid = Some(r.range(300_000, 4_000_000));
+        let cands: [(&str, &[&str]); 10] = [
+            ("SOURCE_DATE_EPOCH", &["0", "1700000000"]),
+            ("CARGO_PKG_NAME", &["a", "zzz"]),
+            ("CARGO_CRATE_NAME", &["a", "my_crate"]),
+            ("CARGO_PKG_VERSION", &["0.1.0", "12.3.4-beta.1"]),
+            ("CARGO_PKG_RUST_VERSION", &["1.60", "1.81.0", ""]),
+            ("CARGO_MANIFEST_DIR", &["/sim/ws/a", "/sim/ws/b"]),
+            ("OUT_DIR", &["/sim/out-1", "/sim/out-2"]),
+            ("PROFILE", &["debug", "release"]),
+            ("LANG", &["C", "tr_TR.UTF-8"]),
+            ("TZ", &["UTC", "Asia/Tokyo"]),
+        ];
+        let mut env = vec![];
+        for (k, vs) in cands {
+            if r.chance(1, 2) {
+                env.push((k.to_string(), r.pick(vs).to_string()));
+            }
+        }
+        W3 { entropy, clock_off_s, pid, env }
+    }
 }
 
 pub fn run_rustc(p: &Paths, tag: &str, krate: &Crate, entropy: u64) -> Result<Session, String> {
+    run_rustc_mode(p, tag, krate, entropy, false)
+}
+
+pub fn run_rustc_mode(p: &Paths, tag: &str, krate: &Crate, entropy: u64, hygiene: bool) -> Result<Session, String> {
     std::fs::create_dir_all(&p.work).map_err(|e| e.to_string())?;
     let src_path = p.work.join(format!("e3-{tag}.rs"));
     std::fs::write(&src_path, &krate.src).map_err(|e| e.to_string())?;
-    let out = Command::new("rustc")
+    let w = W3::from_entropy(entropy);
+    let mut cmd = Command::new("rustc");
+    if w.clock_off_s != 0 {
+        cmd.env("VERIF_CLOCK_OFFSET_S", w.clock_off_s.to_string());
+    }
+    if let Some(pid) = w.pid {
+        cmd.env("VERIF_PID", pid.to_string());
+    }
+    for (k, v) in &w.env {
+        cmd.env(k, v);
+    }
+    let out = cmd
         .arg("--edition").arg("2021")
-        .arg("-Zunpretty=expanded")
+        .arg(if hygiene { "-Zunpretty=expanded,hygiene" } else { "-Zunpretty=expanded" })
         .arg("--error-format=json")
         .arg("--crate-name").arg("e3crate")
         .arg("--extern").arg(format!("educe={}", p.so.display()))
@@ -167,7 +229,7 @@ pub fn run_rustc(p: &Paths, tag: &str, krate: &Crate, entropy: u64) -> Result<Se
     for m in mods.values_mut() {
         m.diags.sort();
     }
-    Ok(Session { mods, control, unattributed })
+    Ok(Session { mods, control, unattributed, raw: if hygiene { stdout } else { String::new() } })
 }
 
 fn paths(a: &Args) -> Paths {
@@ -274,6 +336,9 @@ pub fn run(a: &Args, tier: &str, seed: u64) -> Result<E3Result, String> {
     let mut crates = 0u64;
     let max_minimised = a.u64("e3-max-violations", 2) as usize;
     let jobs = a.u64("e3-jobs", 16) as usize;
+    let n_hygiene = if thorough { a.u64("e3-hygiene", 6) } else { a.u64("e3-hygiene", 2) };
+    let mut hygiene_sessions = 0u64;
+    let mut hygiene_violations = 0u64;
     let mut further_differing = 0u64;
 
     'outer: for (ci, chunk) in all.chunks(crate_size).enumerate() {
@@ -282,12 +347,14 @@ pub fn run(a: &Args, tier: &str, seed: u64) -> Result<E3Result, String> {
         let mut reference: BTreeMap<usize, (ModObs, u64, usize)> = BTreeMap::new();
         let mut flagged: BTreeSet<usize> = BTreeSet::new();
         let mut order_srcs: Vec<String> = vec![];
+        let mut hygiene_ref: Option<(u64, String)> = None;
         // plan every session of this crate first (all PRNG draws happen here, sequentially) ...
         struct Planned {
             oi: usize,
             order_seed: u64,
             entropy: u64,
             krate: std::sync::Arc<Crate>,
+            hygiene: bool,
         }
         let mut planned: Vec<Planned> = vec![];
         for oi in 0..n_orders {
@@ -306,7 +373,12 @@ pub fn run(a: &Args, tier: &str, seed: u64) -> Result<E3Result, String> {
             order_srcs.push(krate.src.clone());
             for ei in 0..n_entropy {
                 let entropy = if oi == 0 && ei == 0 { 0 } else { 1 + ei + 1000 * oi as u64 + 100_000 * ci as u64 };
-                planned.push(Planned { oi, order_seed, entropy, krate: krate.clone() });
+                planned.push(Planned { oi, order_seed, entropy, krate: krate.clone(), hygiene: false });
+                // the first item order is also expanded with syntax-context annotations: the whole
+                // crate, hygiene marks included, must be identical across worlds
+                if oi == 0 && ei < n_hygiene {
+                    planned.push(Planned { oi, order_seed, entropy, krate: krate.clone(), hygiene: true });
+                }
             }
         }
         // ... then run the compiler sessions in parallel (they are independent OS processes) and
@@ -323,7 +395,7 @@ pub fn run(a: &Args, tier: &str, seed: u64) -> Result<E3Result, String> {
                             break;
                         }
                         let pl = &planned[k];
-                        let r = run_rustc(&p, &format!("c{ci}s{k}"), &pl.krate, pl.entropy);
+                        let r = run_rustc_mode(&p, &format!("c{ci}s{k}"), &pl.krate, pl.entropy, pl.hygiene);
                         *slots[k].lock().unwrap() = Some(r);
                     });
                 }
@@ -336,6 +408,37 @@ pub fn run(a: &Args, tier: &str, seed: u64) -> Result<E3Result, String> {
                 let ei = if oi == 0 && entropy == 0 { 0 } else { 1 };
                 let krate = &pl.krate;
                 let sess = sess?;
+                if pl.hygiene {
+                    invocations += 1;
+                    hygiene_sessions += 1;
+                    match &hygiene_ref {
+                        None => hygiene_ref = Some((entropy, sess.raw.clone())),
+                        Some((e0, raw0)) => {
+                            if *raw0 != sess.raw && hygiene_violations == 0 {
+                                hygiene_violations += 1;
+                                let j = J::obj()
+                                    .set("property", J::s("C16"))
+                                    .set("engine", J::s("E3 real rustc + shipped libeduce.so + LD_PRELOAD shim (hygiene-annotated expansion of the whole crate)"))
+                                    .set("verif_seed", J::s(seed.to_string()))
+                                    .set("signature", J::obj().set("kind", J::s("hygiene_or_whole_crate")))
+                                    .set("scenario", J::obj()
+                                        .set("crate", J::s(krate.src.clone()))
+                                        .set("hygiene", J::Bool(true))
+                                        .set("module", J::i(0))
+                                        .set("entropy", J::Arr(vec![J::s(e0.to_string()), J::s(entropy.to_string())])))
+                                    .set("diff", J::s(simple_diff(raw0, &sess.raw)));
+                                let path = write_e3_replay(&replay_dir, &format!("C16-E3H-{seed}-{ci}.json"), &j);
+                                violations.push(
+                                    J::obj()
+                                        .set("engine", J::s("E3"))
+                                        .set("replay", path.map(|p| J::s(p.display().to_string())).unwrap_or(J::Null))
+                                        .set("signature", J::obj().set("kind", J::s("hygiene_or_whole_crate"))),
+                                );
+                            }
+                        },
+                    }
+                    continue;
+                }
 
                 invocations += 1;
                 match &control_ref {
@@ -470,6 +573,8 @@ pub fn run(a: &Args, tier: &str, seed: u64) -> Result<E3Result, String> {
         .set("modules_with_multiple_items", J::i(multi_item))
         .set("entropy_values_per_order", J::i(n_entropy))
         .set("item_orders", J::i(n_orders as u64))
+        .set("hygiene_annotated_sessions", J::i(hygiene_sessions))
+        .set("worlds", J::s("entropy value (=> hasher keys, wall-clock offset, pid, CARGO_*/LANG/TZ/SOURCE_DATE_EPOCH environment) x item order"))
         .set("control_module_stable", J::Bool(true))
         .set("further_differing_modules_not_minimised", J::i(further_differing))
         .set("samples", J::Arr(samples))
@@ -477,7 +582,7 @@ pub fn run(a: &Args, tier: &str, seed: u64) -> Result<E3Result, String> {
     let engine_json = J::obj()
         .set("name", J::s("E3 real rustc"))
         .set("real", J::s("the proc-macro dylib built from /repo with the guard off, the proc_macro bridge, rustc's expansion and diagnostics"))
-        .set("stub", J::s("OS entropy only (LD_PRELOAD getrandom keyed by VERIF_ENTROPY)"))
+        .set("stub", J::s("LD_PRELOAD shim only: getrandom keyed by VERIF_ENTROPY, CLOCK_REALTIME offset, pid; plus chosen CARGO_*/LANG/TZ environment"))
         .set("expansions", J::i(modules_compared));
     Ok(E3Result { engine_json, coverage, violations })
 }
@@ -521,6 +626,24 @@ pub fn replay(j: &J, path: &Path) -> i32 {
     };
     let ka = Crate { lines: line_table(&src_a), src: src_a };
     let kb = Crate { lines: line_table(&src_b), src: src_b };
+    if matches!(sc.get("hygiene"), Some(J::Bool(true))) {
+        return match (run_rustc_mode(&p, "replay-a", &ka, ents[0], true), run_rustc_mode(&p, "replay-b", &kb, ents[1], true)) {
+            (Ok(x), Ok(y)) if x.raw != y.raw => {
+                println!("replay (E3, hygiene): the annotated expansion of the crate differs between worlds {} and {}", ents[0], ents[1]);
+                println!("{}", simple_diff(&x.raw, &y.raw));
+                println!("VIOLATION property=C16 replay={}", path.display());
+                1
+            },
+            (Ok(_), Ok(_)) => {
+                println!("replay (E3, hygiene): outcomes agree (no violation)");
+                0
+            },
+            (Err(e), _) | (_, Err(e)) => {
+                eprintln!("harness error: {e}");
+                2
+            },
+        };
+    }
     let (sa, sb) = match (run_rustc(&p, "replay-a", &ka, ents[0]), run_rustc(&p, "replay-b", &kb, ents[1])) {
         (Ok(a), Ok(b)) => (a, b),
         (Err(e), _) | (_, Err(e)) => {
